@@ -154,6 +154,12 @@ def tr(pattern, top=False):
             p = list(p)
             if direction == -1 and len(p) == 1 and p[0][0] is K.LITERAL and top and i == 0:
                 not_after = p[0][1]
+            elif direction == 1 and len(p) == 1 and p[0][0] in (K.IN, K.LITERAL, K.NOT_LITERAL):
+                # (?![...]): the next character is not in the class
+                sub = tr([p[0]])[1]
+                if sub[0] != 'cls':
+                    raise Unsupported('negative look-ahead of %r' % (sub,))
+                parts.append(('nahead', sub[1], sub[2]))
             else:
                 raise Unsupported('negative assertion %r' % (av,))
         else:
@@ -161,8 +167,10 @@ def tr(pattern, top=False):
     return not_after, seq_of(parts)
 
 
-def case_close(r):
-    """re.IGNORECASE for ASCII letters: every class also accepts the other case"""
+def case_close(r, approx=False):
+    """re.IGNORECASE for ASCII letters: every class also accepts the other case.
+    `approx`: a superset is good enough (ambiguity analysis): a non-ASCII range stays as it is, plus the ASCII
+    letters whose case variants lie in it (U+017F long s, U+212A Kelvin sign)"""
     t = r[0]
     if t == 'cls':
         rs = list(r[2])
@@ -170,7 +178,17 @@ def case_close(r):
             if hi >= 0x80:
                 if r[1] and lo <= 0x7f:
                     continue
-                raise Unsupported('ignore-case over non-ASCII range')
+                if approx:
+                    if not r[1]:
+                        if lo <= 0x17f <= hi:
+                            rs += [(115, 115), (83, 83)]
+                        if lo <= 0x212a <= hi:
+                            rs += [(107, 107), (75, 75)]
+                    if lo >= 0x80:
+                        continue
+                    hi = 0x7f
+                else:
+                    raise Unsupported('ignore-case over non-ASCII range')
             for c in range(lo, hi + 1):
                 ch = chr(c)
                 if ch.isalpha():
@@ -179,7 +197,10 @@ def case_close(r):
         return ('cls', r[1], tuple(sorted(set(rs))))
     if t in ('eps', 'ahead'):
         return r
-    return (t,) + tuple(case_close(x) for x in r[1:])
+    if t == 'nahead':
+        c = case_close(('cls', r[1], r[2]), approx)
+        return ('nahead', c[1], c[2])
+    return (t,) + tuple(case_close(x, approx) for x in r[1:])
 
 
 def regex_to_re(pattern_text, flags=re.U):
@@ -193,7 +214,7 @@ def regex_to_re(pattern_text, flags=re.U):
     return na, r
 
 
-def regex_full_to_re(pattern_text, flags=re.U):
+def regex_full_to_re(pattern_text, flags=re.U, approx=False):
     """a pattern of the shape ^...$ → Re for the inside (to be used as a full match)"""
     tree = P.parse(pattern_text, flags)
     items = list(tree)
@@ -204,7 +225,7 @@ def regex_full_to_re(pattern_text, flags=re.U):
     if na is not None:
         raise Unsupported('look-behind')
     if tree.state.flags & re.I:
-        r = case_close(r)
+        r = case_close(r, approx)
     return r
 
 
@@ -217,7 +238,7 @@ class Emitter:
         self.memo = {}
 
     def size(self, r):
-        if r[0] in ('eps', 'cls', 'ahead'):
+        if r[0] in ('eps', 'cls', 'ahead', 'nahead'):
             return 1
         return 1 + sum(self.size(x) for x in r[1:] if isinstance(x, tuple) and x and isinstance(x[0], str))
 
@@ -232,6 +253,9 @@ class Emitter:
             s = '(Re.cls %s [%s])' % ('true' if r[1] else 'false', rs)
         elif t == 'ahead':
             s = '(Re.ahead %d)' % r[1]
+        elif t == 'nahead':
+            rs = ', '.join('(%d, %d)' % p for p in r[2])
+            s = '(Re.nahead %s [%s])' % ('true' if r[1] else 'false', rs)
         elif t in ('seq', 'alt'):
             s = '(Re.%s %s %s)' % (t, self.emit(r[1]), self.emit(r[2]))
         elif t in ('star', 'opt', 'lazyStar'):
@@ -406,6 +430,35 @@ def gen_names():
     return '\n'.join(out) + '\n'
 
 
+def gen_profiles():
+    """the validation patterns of every profile (css_parser.profiles), for the ambiguity obligation of C01"""
+    import logging
+    import css_parser
+    css_parser.log.setLevel(logging.FATAL)
+    em = Emitter('v')
+    d = css_parser.profile._profilesProperties
+    rows = []
+    skipped = []
+    for name in sorted(d):
+        for prop in sorted(d[name]):
+            rx = d[name][prop]
+            try:
+                r = regex_full_to_re(rx.pattern, rx.flags, approx=True)
+                rows.append((name, prop, em.emit(r)))
+            except Unsupported as e:
+                skipped.append('%s/%s: %s' % (name, prop, e))
+    out = ['-- GENERATED by harness/gen_tables.py from /repo — do not edit',
+           'import CssVerif.Model.Re', 'namespace CssVerif.Gen', 'open CssVerif', '']
+    for nm, sdef in em.defs:
+        out.append('def %s : Re := %s' % (nm, sdef))
+    out.append('def profileRes : List (String × String × Re) := [')
+    out.append(',\n'.join('  (%s, %s, %s)' % (lean_str(a), lean_str(b), c) for a, b, c in rows))
+    out.append(']')
+    out.append('def profileSkipped : List String := [%s]' % ', '.join(lean_str(x) for x in skipped))
+    out.append('end CssVerif.Gen')
+    return '\n'.join(out) + '\n'
+
+
 def gen_colors():
     """named colours, the zero-length unit list of do_css_Value, the hex-colour regex"""
     import ast
@@ -440,7 +493,8 @@ def gen_colors():
     return '\n'.join(out) + '\n'
 
 
-GENERATORS = {'Productions.lean': gen_productions, 'Names.lean': gen_names, 'Colors.lean': gen_colors}
+GENERATORS = {'Productions.lean': gen_productions, 'Names.lean': gen_names, 'Colors.lean': gen_colors,
+              'Profiles.lean': gen_profiles}
 
 
 def main():
